@@ -1,6 +1,7 @@
 package verifharness
 
 import (
+	"net/http/httptest"
 	"bytes"
 	"encoding/json"
 	"fmt"
@@ -28,6 +29,8 @@ type SdCase struct {
 	N        int   `json:"n"`        // scenario 2: callers
 	Max      int   `json:"max"`      // scenario 2: max_requests
 	Schedule []int `json:"schedule"`
+	Init     []int `json:"init,omitempty"`   // scenario 4: per backend 1 = healthy, 0 = ejected with an elapsed window
+	Client   string `json:"client,omitempty"` // scenario 4: RemoteAddr host of the picking request
 }
 
 type schedCtl struct {
@@ -157,7 +160,7 @@ var sdLabels = map[string]int{
 	"IsBackendHealthy:RLock": 1, "IsBackendHealthy:Lock": 2, "MarkBackendUnhealthy:Lock": 3,
 	"beforeRequest:RLock": 4, "beforeRequest:Lock": 5, "Execute:Lock": 6, "afterRequest:Lock": 7,
 	"SetStrategy:Lock": 8, "AddBackend:Lock": 9, "RemoveBackend:Lock": 10, "Put:Lock": 11, "Shutdown:Lock": 12,
-	"SetStrategy:RLock": 13,
+	"SetStrategy:RLock": 13, "NextBackend:RLock": 14, "markedHealthy:RLock": 15,
 }
 
 func installSchedHooks() {
@@ -165,8 +168,10 @@ func installSchedHooks() {
 	circuitbreaker.VerifYieldHook = schedYield
 }
 
-func sdLB(n int) *lbp.LoadBalancer {
-	cfg := &config.Config{Server: config.ServerConfig{Port: 8080}, LoadBalancer: config.LoadBalancerConfig{Strategy: "round_robin"}}
+func sdLB(n int) *lbp.LoadBalancer { return sdLBStrategy(n, "round_robin") }
+
+func sdLBStrategy(n int, strategy string) *lbp.LoadBalancer {
+	cfg := &config.Config{Server: config.ServerConfig{Port: 8080}, LoadBalancer: config.LoadBalancerConfig{Strategy: strategy}}
 	for i := 1; i <= n; i++ {
 		cfg.Backends = append(cfg.Backends, config.BackendConfig{Name: fmt.Sprintf("n%d", i), Address: fmt.Sprintf("http://sd%d.probe", i)})
 	}
@@ -230,6 +235,53 @@ func runSdCase(c SdCase) (string, map[string]int) {
 		}
 		ctl, finished = runThreads(c.Schedule, threads)
 		obs = append([]int{int(cb.State())}, codes...)
+	case 4:
+		// a pick (LoadBalancer.NextBackend) against ejections (MarkBackendUnhealthy) and lazy re-admissions (IsBackendHealthy)
+		lb := sdLBStrategy(len(c.Init), strategyNames[c.N])
+		bs := lb.VerifBackends()
+		for j, h := range c.Init {
+			if h == 0 {
+				lb.MarkBackendUnhealthy(bs[j], time.Millisecond)
+			}
+		}
+		time.Sleep(3 * time.Millisecond)
+		rets := make([]int, len(c.Kinds))
+		var threads []func()
+		for i, k := range c.Kinds {
+			i, k := i, k
+			rets[i] = -1
+			switch {
+			case k == 0:
+				threads = append(threads, func() {
+					defer func() {
+						if p := recover(); p != nil {
+							rets[i] = -2 // the selection panicked
+						}
+					}()
+					req := httptest.NewRequest("GET", "http://lb.local/x", nil)
+					req.RemoteAddr = c.Client + ":4000"
+					b := lb.NextBackend(req)
+					rets[i] = 0
+					for j, x := range bs {
+						if x == b {
+							rets[i] = j + 1
+						}
+					}
+				})
+			case k < 20:
+				threads = append(threads, func() { lb.MarkBackendUnhealthy(bs[k-11], time.Hour); rets[i] = 0 })
+			default:
+				threads = append(threads, func() { rets[i] = b2i(lb.IsBackendHealthy(bs[k-21])) })
+			}
+		}
+		ctl, finished = runThreads(c.Schedule, threads)
+		for _, b := range bs {
+			b.Mutex.RLock()
+			obs = append(obs, b2i(b.IsHealthy))
+			b.Mutex.RUnlock()
+		}
+		obs = append(obs, rets...)
+		lb.Stop()
 	case 3:
 		lb := sdLB(2)
 		var threads []func()
@@ -267,7 +319,7 @@ func runSdCase(c SdCase) (string, map[string]int) {
 	if !finished {
 		stats["hung"]++
 	}
-	return fmt.Sprintf("mkSdCase %d %s %d %d %s %s %s %s %s", c.Scenario, IList(c.Kinds), c.N, c.Max, IList(c.Schedule), IList(obs), List(trace), B(ctl.infeasible.Load()), B(finished)), stats
+	return fmt.Sprintf("mkSdCase %d %s %d %d %s %s %s %s %s %s %s", c.Scenario, IList(c.Kinds), c.N, c.Max, IList(c.Schedule), IList(obs), List(trace), B(ctl.infeasible.Load()), B(finished), IList(c.Init), Bytes(c.Client)), stats
 }
 
 // interleavings: every sequence in which thread t occurs counts[t] times (capped; sampled beyond the cap)
@@ -365,6 +417,40 @@ func TestSched(t *testing.T) {
 		}
 		for _, s := range interleavings(counts, lim, g) {
 			emit("enum", SdCase{Scenario: 3, Kinds: kinds, Schedule: s})
+		}
+	}
+	// scenario 4: one pick of every strategy over 3 backends against one or two flips, every interleaving.  A picker needs
+	// 1 + n sections (round_robin stops at the first healthy slot), an ejector 1, a healer 2; each gets one more.
+	s4 := []struct {
+		init  []int
+		kinds []int
+	}{
+		{[]int{1, 1, 1}, []int{0, 11}},     // the first backend is ejected during the pick
+		{[]int{1, 1, 1}, []int{0, 13}},     // the last one
+		{[]int{0, 1, 1}, []int{0, 21}},     // the first one comes back during the pick
+		{[]int{1, 0, 1}, []int{0, 22, 11}}, // one comes back, another one goes
+		{[]int{0, 0, 1}, []int{0, 13, 21}}, // the only healthy one goes while another comes back
+	}
+	for kind := 0; kind <= 4; kind++ {
+		for _, sc := range s4 {
+			counts := make([]int, len(sc.kinds))
+			for i, k := range sc.kinds {
+				switch {
+				case k == 0:
+					counts[i] = 1 + len(sc.init) + 1
+				case k < 20:
+					counts[i] = 2
+				default:
+					counts[i] = 3
+				}
+			}
+			l4 := lim / 3
+			if len(sc.kinds) == 2 {
+				l4 = lim
+			}
+			for _, s := range interleavings(counts, l4, g) {
+				emit("enum", SdCase{Scenario: 4, N: kind, Kinds: sc.kinds, Init: sc.init, Client: []string{"10.0.0.1", "10.0.0.2", "10.0.0.7"}[len(s)%3], Schedule: s})
+			}
 		}
 	}
 	cw.Close()
